@@ -20,6 +20,9 @@ def apply_unified_diff(root, patch_text):
     import re
     overlay = {}
     files = re.split(r'^diff --git ', patch_text, flags=re.M)[1:]
+    if not files:
+        # plain `diff -u` output: one block per `--- a/...` header
+        files = re.split(r'^(?=--- a/)', patch_text, flags=re.M)[1:]
     for blk in files:
         m = re.search(r'^\+\+\+ b/(.*)$', blk, flags=re.M)
         if not m:
